@@ -166,9 +166,9 @@ def spec(what, k=3, l=10):
 TAGSETS = [[], ['income'], ['Transfer'], ['investment', 'transfer'], ['food'], ['INCOME', 'transfer'], ['Investment']]
 
 
-def _txn(merchant, category, sub, month, amount, tags, desc=None, day=3):
+def _txn(merchant, category, sub, month, amount, tags, year=2024, desc=None, day=3):
     from datetime import datetime
-    return {'merchant': merchant, 'category': category, 'subcategory': sub, 'date': datetime(2024, month, day),
+    return {'merchant': merchant, 'category': category, 'subcategory': sub, 'date': datetime(year, month, day),
             'amount': amount, 'tags': list(tags), 'description': desc or merchant, 'raw_description': (desc or merchant) + ' RAW',
             'source': 'S'}
 
@@ -192,6 +192,8 @@ BASES = {
     'two-merchants': [('M1', 'Cat', 'Sub', 3, 20.0, ['food']), ('M2', 'Cat2', 'Sub2', 4, -7.5, ['transfer'])],
     'same-merchant-tagged': [('M1', 'Cat', 'Sub', 3, 20.0, ['income']), ('M1', 'Cat', 'Sub', 3, 5.0, [])],
     'three': [('M1', 'Cat', 'Sub', 3, 20.0, []), ('M2', 'Cat', 'Sub', 3, 30.0, ['investment']), ('M1', 'Cat', 'Sub', 5, -4.0, ['Income'])],
+    # the same month number in two different years, not in date order (two exports concatenated)
+    'two-years': [('M1', 'Cat', 'Sub', 12, 20.0, [], 2025), ('M2', 'Cat', 'Sub', 12, 30.0, [], 2024), ('M1', 'Cat', 'Sub', 1, 5.0, [], 2025)],
 }
 
 
@@ -200,7 +202,8 @@ def increment(base, tagset, where):
     'newall' (M9, Cat9, month 7) | 'newmonth' (M1, month 8 - needs sqrt_free)"""
     tags = TAGSETS[tagset]
     merchant, cat, sub, month = {'same': ('M1', 'Cat', 'Sub', 3), 'newmerchant': ('M9', 'Cat', 'Sub', 3),
-                                 'newall': ('M9', 'Cat9', 'Sub9', 7), 'newmonth': ('M1', 'Cat', 'Sub', 8)}[where]
+                                 'newall': ('M9', 'Cat9', 'Sub9', 7), 'newmonth': ('M1', 'Cat', 'Sub', 8), 'otheryear': ('M1', 'Cat', 'Sub', 12)}[where]
+    year = 2024        # 'otheryear': December 2024 next to the base list's December 2025
     base_txns = BASES[base]
 
     def ob(amount: float, pos: int) -> bool:
@@ -213,7 +216,7 @@ def increment(base, tagset, where):
         if pos > len(lst):
             pos = len(lst)
         s0 = analyze_transactions([dict(t) for t in lst])
-        t = _txn(merchant, cat, sub, month, amount, tags)
+        t = _txn(merchant, cat, sub, month, amount, tags, year)
         lst1 = lst[:pos] + [t] + lst[pos:]
         s1 = analyze_transactions([dict(x) for x in lst1])
         absa = amount if amount >= 0 else -amount
@@ -231,7 +234,7 @@ def increment(base, tagset, where):
         c0 = s0['by_category'].get((cat, sub), {'total': 0, 'count': 0})
         c1 = s1['by_category'][(cat, sub)]
         ok = ok and c1['total'] == c0['total'] + eff and c1['count'] == c0['count'] + 1
-        mk = '2024-%02d' % month
+        mk = '%d-%02d' % (year, month)
         ok = ok and s1['by_month'][mk] == s0['by_month'].get(mk, 0) + eff
         # everything that does not belong to the new transaction is untouched
         for name, d in s0['by_merchant'].items():
@@ -295,14 +298,14 @@ def obligations(tier, seed):
               ('three', 5, 'same'), ('empty', 4, 'newall'), ('three', 6, 'newall'), ('one', 2, 'newmonth'), ('three', 0, 'newmonth'),
               ('one', 0, 'same'), ('one', 3, 'newmerchant'), ('two-merchants', 1, 'same'), ('two-merchants', 6, 'newmonth'),
               ('same-merchant-tagged', 2, 'same'), ('same-merchant-tagged', 5, 'newall'), ('three', 1, 'newmerchant'), ('three', 2, 'same'),
-              ('three', 4, 'newmonth'), ('empty', 0, 'same'), ('empty', 1, 'newall')]
+              ('three', 4, 'newmonth'), ('empty', 0, 'same'), ('empty', 1, 'newall'), ('two-years', 0, 'otheryear'), ('two-years', 4, 'otheryear'), ('two-years', 1, 'newmonth')]
     if not q:
-        combos = [(b, t, w) for b in BASES for t in range(len(TAGSETS)) for w in ['same', 'newmerchant', 'newall', 'newmonth']]
+        combos = [(b, t, w) for b in BASES for t in range(len(TAGSETS)) for w in ['same', 'newmerchant', 'newall', 'newmonth', 'otheryear']]
     for (b, t, w) in combos:
         obs.append(Obligation(id=f'inc-{b}-t{t}-{w}', factory='increment', params={'base': b, 'tagset': t, 'where': w},
                               reals=True, opaque=True, sqrt_free=True, timeout=120 if q else 600, group='accumulation, inductive step',
                               bounds=f'base list {b} ({len(BASES[b])} concrete transactions) + one transaction with symbolic real amount, tags {TAGSETS[t]}, placement {w}, inserted at a symbolic position'))
-    perms = [('one', 0, 1), ('two-merchants', 2, 4), ('empty', 3, 5), ('one', 2, 2), ('empty', 0, 6), ('two-merchants', 1, 3)] if q else [(b, i, j) for b in ['empty', 'one', 'two-merchants'] for i in range(len(TAGSETS)) for j in range(i, len(TAGSETS))]
+    perms = [('one', 0, 1), ('two-merchants', 2, 4), ('empty', 3, 5), ('one', 2, 2), ('empty', 0, 6), ('two-merchants', 1, 3), ('two-years', 0, 4)] if q else [(b, i, j) for b in ['empty', 'one', 'two-merchants', 'two-years'] for i in range(len(TAGSETS)) for j in range(i, len(TAGSETS))]
     for (b, i, j) in perms:
         obs.append(Obligation(id=f'perm-{b}-t{i}-t{j}', factory='permutation', params={'base': b, 'tagset1': i, 'tagset2': j},
                               reals=True, opaque=True, sqrt_free=True, timeout=120 if q else 600, group='order and partition independence',
